@@ -1,4 +1,5 @@
 import Psa.DryRunProofs
+import Psa.Generated.Facts
 /-! # C12 — the existing-pod dry run is bounded and honest about partial coverage
 Expiry is an index `e : Option Nat` (the context reports an error from the e-th evaluation on); every theorem quantifies
 over every `e`. That the Go runtime cancels on time is not modelled (wall clock): the harness observes the deadline. -/
@@ -112,6 +113,9 @@ example : (dryRun (fun _ _ => []) [] 3000 b!"ns" ⟨.baseline, .latest⟩
     [{ name := b!"a", pod := {} }, { name := b!"b", pod := {} }, { name := b!"c", pod := {} }] (some 0)).1 =
     [Warning.onlyChecked 1 3] := by decide
 
+/-- tie obligation (F7): the cap is 3000 pods and the default budget one second -/
+theorem C12_constants : Generated.namespaceMaxPodsToCheck = 3000 ∧ Generated.namespacePodCheckTimeoutNs = 1000000000 := by decide
+
 #print axioms C12_timeout
 #print axioms C12_timeout_le
 #print axioms C12_lister_deadline
@@ -120,4 +124,5 @@ example : (dryRun (fun _ _ => []) [] 3000 b!"ns" ⟨.baseline, .latest⟩
 #print axioms C12_honest
 #print axioms C12_checked
 #print axioms C12_reports_checked_only
+#print axioms C12_constants
 end PSA.Props
